@@ -92,6 +92,7 @@ type Request struct {
 	Stmt bool             `json:"stmt"` // run Raw through Session.ExecQuery (any statement kind) instead of EvaluateSelect
 	NoDb bool             `json:"nodb"` // C18 session states: no USE at all
 	BadU bool             `json:"badu"` // C18: a failed USE precedes the statements
+	Caps []int            `json:"caps"` // page capacities (leaf, internal) to run at; empty = production
 }
 
 type Res struct {
@@ -379,7 +380,11 @@ func handle(req Request) Response {
 	storage.VerifForgetStores()
 	storage.VerifAutoFlushOff()
 	storage.VerifTrackStores()
-	storage.VerifSetCaps(0, 0)
+	if len(req.Caps) == 2 {
+		storage.VerifSetCaps(req.Caps[0], req.Caps[1])
+	} else {
+		storage.VerifSetCaps(0, 0)
+	}
 	if err := storage.InitStorage(); err != nil {
 		resp.Setup = err.Error()
 		return resp
@@ -393,8 +398,16 @@ func handle(req Request) Response {
 	}()
 	setup := func(q string) bool {
 		r := runStmt(sess, q)
+		if r.Panic != "" || r.Hang {
+			// the engine crashed on a plain valid statement while the database was being loaded: that is an answer
+			r.SQL = q
+			r.Cols, r.Rows = []string{}, [][]Val{}
+			resp.Res = []Res{r}
+			resp.Setup = "PANIC"
+			return false
+		}
 		if r.Err {
-			resp.Setup = q + ": " + r.Msg + r.Panic
+			resp.Setup = q + ": " + r.Msg
 			return false
 		}
 		return true
